@@ -37,7 +37,7 @@ func (e *Engine) registerFmt() {
 			if w.IsNil() {
 				panic(pathEnd{kind: endPanic, msg: "nil pointer dereference (nil io.Writer)", site: e.where()})
 			}
-			m := e.Prog.LookupMethod(w.T, nil, "Write")
+			m := e.lookupMethod(w.T, "Write")
 			bs := e.convert(types.Typ[types.String], types.NewSlice(types.Typ[types.Uint8]), s)
 			r := e.callFunction(m, []Value{w.V, bs}).(TupleV)
 			return r
@@ -151,7 +151,7 @@ func (e *Engine) render(a Value, verb byte) StrV {
 	// error / Stringer
 	if verb != 'd' && verb != 'x' && verb != 'c' {
 		for _, mn := range []string{"Error", "String"} {
-			if m := e.Prog.LookupMethod(iv.T, nil, mn); m != nil && m.Signature.Params().Len() == 0 && m.Signature.Results().Len() == 1 && isString(m.Signature.Results().At(0).Type()) {
+			if m := e.lookupMethod(iv.T, mn); m != nil && m.Signature.Params().Len() == 0 && m.Signature.Results().Len() == 1 && isString(m.Signature.Results().At(0).Type()) {
 				if p, ok := iv.V.(PtrV); ok && p.IsNil() {
 					return strConst("<nil>")
 				}
